@@ -421,6 +421,127 @@ fn c01_end_seq__complete() {
     kani::cover!(alen == 0 && fp == 0, "cover.empty");
 }
 
+
+// =================================================================================================================
+// C02: encode -> decode returns the original value, and the decoder consumes exactly the bytes written.
+// Composed units: the REAL per-type serializer method writes into a window at an arbitrary message position and
+// byte order; the REAL dbus::Deserializer then reads the SAME bytes (buffer cut exactly at the end of what was
+// written, same absolute position, same byte order).   ensures  decoded == v (bit-equal), consumed == written.
+// The decoder's padding callee is replaced by its exact loop-free contract stub (justified by unit C03.parse_padding).
+// =================================================================================================================
+use crate::de::DeserializerCommon;
+use crate::dbus::de::Deserializer as DbusDe;
+use serde::Deserialize as _;
+type Fd0 = std::os::fd::BorrowedFd<'static>;
+
+fn stub_parse_padding_rt<'de: 'de, 'a: 'a, 'b: 'b, F>(
+    this: &mut DeserializerCommon<'de, 'a, 'b, F>,
+    alignment: usize,
+) -> Result<usize> {
+    assert!(alignment == 1 || alignment == 2 || alignment == 4 || alignment == 8,
+            "C03.parse_padding.requires_valid_alignment");
+    let p = spec_pad(this.ctxt.position() + this.pos, alignment);
+    if p == 0 {
+        return Ok(0);
+    }
+    if this.pos + p > this.bytes.len() {
+        return Err(Error::OutOfBounds);
+    }
+    let b = this.bytes;
+    let s = this.pos;
+    let nz = b[s] != 0
+        || (p > 1 && b[s + 1] != 0)
+        || (p > 2 && b[s + 2] != 0)
+        || (p > 3 && b[s + 3] != 0)
+        || (p > 4 && b[s + 4] != 0)
+        || (p > 5 && b[s + 5] != 0)
+        || (p > 6 && b[s + 6] != 0);
+    if nz {
+        return Err(Error::PaddingNot0(1));
+    }
+    this.pos += p;
+    Ok(p)
+}
+
+trait RtBits { fn rt_bits(self) -> u64; }
+impl RtBits for u8 { fn rt_bits(self) -> u64 { self as u64 } }
+impl RtBits for bool { fn rt_bits(self) -> u64 { self as u64 } }
+impl RtBits for u16 { fn rt_bits(self) -> u64 { self as u64 } }
+impl RtBits for i16 { fn rt_bits(self) -> u64 { self as u16 as u64 } }
+impl RtBits for u32 { fn rt_bits(self) -> u64 { self as u64 } }
+impl RtBits for i32 { fn rt_bits(self) -> u64 { self as u32 as u64 } }
+impl RtBits for u64 { fn rt_bits(self) -> u64 { self } }
+impl RtBits for i64 { fn rt_bits(self) -> u64 { self as u64 } }
+impl RtBits for f64 { fn rt_bits(self) -> u64 { self.to_bits() } }
+
+macro_rules! rt_fixed_unit {
+    ($name:ident, $ty:ty, $sig:expr, $method:ident, $o_ok:literal, $o_val:literal, $o_len:literal) => {
+        #[cfg(kani)]
+        #[kani::proof]
+        #[kani::stub(alloc::fmt::format, stub_format)]
+        #[kani::stub(<Signature as std::clone::Clone>::clone, stub_sig_clone)]
+        #[kani::stub(DeserializerCommon::parse_padding, stub_parse_padding_rt)]
+        #[kani::unwind(3)]
+        fn $name() {
+            let mut buf: [u8; 24] = kani::any();
+            let w0: usize = kani::any();
+            kani::assume(w0 <= 8);
+            let v: $ty = kani::any();
+            let sig: &'static Signature = $sig;
+            let (endian, abs0, written) = {
+                let mut cur: Cur<'_> = Cursor::new(&mut buf[..]);
+                cur.set_position(w0 as u64);
+                let mut fds = ManuallyDrop::new(FdList::Number(0));
+                let (mut ser, _big) = any_ser(&mut cur, &mut fds, sig);
+                let bw0 = ser.0.bytes_written;
+                let abs0 = ser.0.ctxt.position() + bw0;
+                let r = serde::Serializer::$method(&mut *ser, v);
+                kani::assume(r.is_ok()); // C01.ser_* units prove Ok for every admissible state
+                core::mem::forget(r);
+                (ser.0.ctxt.endian(), abs0, ser.0.bytes_written - bw0)
+            };
+            kani::assume(abs0 >= w0);
+            // decoder over exactly the bytes written (nothing after them), same absolute position / byte order
+            let bytes = &buf[..w0 + written];
+            let mut de: DbusDe<'_, 'static, 'static, Fd0> = DbusDe(DeserializerCommon {
+                ctxt: Context::new_dbus(endian, abs0 - w0),
+                bytes,
+                fds: None,
+                pos: w0,
+                signature: sig,
+                container_depths: ContainerDepths::default(),
+            });
+            let r = <$ty>::deserialize(&mut de);
+            obl!($o_ok, r.is_ok());
+            if let Ok(got) = &r {
+                obl!($o_val, (*got).rt_bits() == v.rt_bits());
+            }
+            obl!($o_len, de.0.pos - w0 == written);
+            kani::cover!(r.is_ok() && written > core::mem::size_of::<$ty>() || core::mem::size_of::<$ty>() == 1, "cover.roundtrip_with_padding");
+            kani::cover!(r.is_ok() && endian == Endian::Big, "cover.roundtrip_big_endian");
+            core::mem::forget(r);
+        }
+    };
+}
+// @unit C02.rt_u8 props=C02 kind=complete fn=<&mut.zvariant::dbus::Serializer.as.serde::Serializer>::serialize_u8,<&mut.zvariant::dbus::Deserializer.as.serde::Deserializer>::deserialize_u8 stubs=C03.parse_padding timeout=900
+rt_fixed_unit!(c02_rt_u8__complete, u8, &SIG_Y, serialize_u8, "C02.rt_u8.decodes", "C02.rt_u8.value_equal", "C02.rt_u8.consumed_equals_written");
+// @unit C02.rt_bool props=C02 kind=complete fn=<&mut.zvariant::dbus::Serializer.as.serde::Serializer>::serialize_bool,<&mut.zvariant::dbus::Deserializer.as.serde::Deserializer>::deserialize_bool stubs=C03.parse_padding timeout=900
+rt_fixed_unit!(c02_rt_bool__complete, bool, <bool as Type>::SIGNATURE, serialize_bool, "C02.rt_bool.decodes", "C02.rt_bool.value_equal", "C02.rt_bool.consumed_equals_written");
+// @unit C02.rt_i16 props=C02 kind=complete fn=<&mut.zvariant::dbus::Serializer.as.serde::Serializer>::serialize_i16,<&mut.zvariant::dbus::Deserializer.as.serde::Deserializer>::deserialize_i16 stubs=C03.parse_padding timeout=900
+rt_fixed_unit!(c02_rt_i16__complete, i16, <i16 as Type>::SIGNATURE, serialize_i16, "C02.rt_i16.decodes", "C02.rt_i16.value_equal", "C02.rt_i16.consumed_equals_written");
+// @unit C02.rt_u16 props=C02 kind=complete fn=<&mut.zvariant::dbus::Serializer.as.serde::Serializer>::serialize_u16,<&mut.zvariant::dbus::Deserializer.as.serde::Deserializer>::deserialize_u16 stubs=C03.parse_padding timeout=900
+rt_fixed_unit!(c02_rt_u16__complete, u16, <u16 as Type>::SIGNATURE, serialize_u16, "C02.rt_u16.decodes", "C02.rt_u16.value_equal", "C02.rt_u16.consumed_equals_written");
+// @unit C02.rt_i32 props=C02 kind=complete fn=<&mut.zvariant::dbus::Serializer.as.serde::Serializer>::serialize_i32,<&mut.zvariant::dbus::Deserializer.as.serde::Deserializer>::deserialize_i32 stubs=C03.parse_padding timeout=900
+rt_fixed_unit!(c02_rt_i32__complete, i32, &SIG_I, serialize_i32, "C02.rt_i32.decodes", "C02.rt_i32.value_equal", "C02.rt_i32.consumed_equals_written");
+// @unit C02.rt_u32 props=C02 kind=complete fn=<&mut.zvariant::dbus::Serializer.as.serde::Serializer>::serialize_u32,<&mut.zvariant::dbus::Deserializer.as.serde::Deserializer>::deserialize_u32 stubs=C03.parse_padding timeout=900
+rt_fixed_unit!(c02_rt_u32__complete, u32, &SIG_U, serialize_u32, "C02.rt_u32.decodes", "C02.rt_u32.value_equal", "C02.rt_u32.consumed_equals_written");
+// @unit C02.rt_i64 props=C02 kind=complete fn=<&mut.zvariant::dbus::Serializer.as.serde::Serializer>::serialize_i64,<&mut.zvariant::dbus::Deserializer.as.serde::Deserializer>::deserialize_i64 stubs=C03.parse_padding timeout=900
+rt_fixed_unit!(c02_rt_i64__complete, i64, <i64 as Type>::SIGNATURE, serialize_i64, "C02.rt_i64.decodes", "C02.rt_i64.value_equal", "C02.rt_i64.consumed_equals_written");
+// @unit C02.rt_u64 props=C02 kind=complete fn=<&mut.zvariant::dbus::Serializer.as.serde::Serializer>::serialize_u64,<&mut.zvariant::dbus::Deserializer.as.serde::Deserializer>::deserialize_u64 stubs=C03.parse_padding timeout=900
+rt_fixed_unit!(c02_rt_u64__complete, u64, &SIG_T, serialize_u64, "C02.rt_u64.decodes", "C02.rt_u64.value_equal", "C02.rt_u64.consumed_equals_written");
+// @unit C02.rt_f64 props=C02 kind=complete fn=<&mut.zvariant::dbus::Serializer.as.serde::Serializer>::serialize_f64,<&mut.zvariant::dbus::Deserializer.as.serde::Deserializer>::deserialize_f64 stubs=C03.parse_padding timeout=900
+rt_fixed_unit!(c02_rt_f64__complete, f64, <f64 as Type>::SIGNATURE, serialize_f64, "C02.rt_f64.decodes", "C02.rt_f64.value_equal_bitwise_incl_nan", "C02.rt_f64.consumed_equals_written");
+
 #[cfg(all(kani, test))]
 mod playback {
     use super::*;
